@@ -55,6 +55,16 @@ CHECKS = {
         note='Exhaustive over the declared scalar numeric/option parameters (finite). List parameters out of scope. Documented internal '
              'rescalings (depth, impedance x1000) are a table in the harness. Trusted: TLC, BigInteger rationals.',
         tech='TLA+ decision-table spec (ReadParam.tla) model-checked with TLC; exhaustive boundary matrix run through the code and validated by TLC (TraceReadParam.tla)'),
+    'C12': dict(
+        cat='model_checking', ref='DESIGN.md section 5 C12',
+        text='InputFile.tla models the tokeniser of read_input_file on real strings and is model-checked over every file of <= 3 lines from '
+             'an alphabet of parameter and decoration lines (padding, trailing comments with commas, CRLF, comment prefixes), invariant '
+             'dictionary = last-wins meaning; every file TLC dumps is replayed into the real read_input_file; for bases of every family, '
+             'seeded layout variants (permutations, decorations, duplicates before the governing line, CRLF, client params-override path '
+             'with/without final newline) are run for real and TraceHistory.tla checks one abstract parameter set => one result.',
+        note='Permutations and decorations are sampled by seed (the tokeniser itself is checked exhaustively on the model). Results compared as '
+             'report text without date/time lines. Add-on lines keep their relative order as the property allows.',
+        tech='TLA+ tokeniser spec (InputFile.tla) model-checked with TLC; TLC-generated files replayed into code; TLC validation of run histories (TraceHistory.tla)'),
     'C16': dict(
         cat='model_checking', ref='DESIGN.md section 5 C16',
         text='Schedule.tla is model-checked exhaustively over small schedules (all lifetimes<=4/6, start years, durations, '
